@@ -257,6 +257,45 @@ pub fn run(ctx: &Ctx, rep: &mut Report) {
             },
         );
     }
+    // ---- downloads: every body length at a handful of budgets
+    {
+        let rels: [usize; 10] = [28, 29, 43, 44, 45, 60, 61, 76, 92, 140];
+        let clients: [Option<u8>; 4] = [None, Some(0), Some(1), Some(3)];
+        let radices = [rels.len() as u64, 301, clients.len() as u64, 2];
+        let n = product(&radices);
+        ctx.family(
+            rep,
+            "downloads-every-length",
+            "budget = overhead + {28,29,43,44,45,60,61,76,92,140} x every body length 0..=300 x client SZX {none,0,1,3} x token {0,8}: every reply measured against the budget",
+            n,
+            true,
+            |i, rep| {
+                let d = decode(i, &radices);
+                let token_len = if d[3] == 1 { 8 } else { 0 };
+                let ovh = reply_overhead(token_len, &[]);
+                let budget = ovh + rels[d[0] as usize];
+                let body_len = d[1] as usize;
+                let client = clients[d[2] as usize];
+                let case = || Json::obj().set("direction", "download").set("budget", budget).set("reply_overhead", ovh).set("token_len", token_len).set("client_szx", client).set("body_len", body_len);
+                let mut local = Report::new();
+                let r = mccore::guard(|| download(budget, token_len, &[], client, body_len, &mut local));
+                rep.transitions += local.transitions;
+                rep.traces_validated += local.traces_validated;
+                rep.state_set.extend(local.state_set);
+                match r {
+                    Err(pn) => rep.violation(viol("downloads-every-length", i, format!("MACHINERY-or-C10/harness-panic@{}", pn.site()), pn.message, case())),
+                    Ok(Ok(class)) => {
+                        rep.count(class);
+                        rep.bucket(&("every", class, client, d[0], body_len / 16));
+                    }
+                    Ok(Err((sig, what))) => {
+                        rep.count("violation");
+                        rep.violation(viol("downloads-every-length", i, sig, what, case()));
+                    }
+                }
+            },
+        );
+    }
     // ---- uploads
     {
         let tokens: [&[u8]; 3] = [&[], &[1, 2, 3, 4], &[1, 2, 3, 4, 5, 6, 7, 8]];
